@@ -211,12 +211,16 @@ func errOf(v any) (string, bool) {
 // ---------------------------------------------------------------------------
 // the jq side
 
-const prelude = `[ ("string","hex","base64","byte_array","md5","truncate","snippet") | . as $f | options({bits_format: $f}) ] as $fmts |`
+// The bulk renderings call _tovalue (what tovalue($opts) is defined as) with
+// only the two options the renderers read: building the full options object
+// and mapping it to the Go struct costs 0.3 ms per call, 20x more than the
+// rendering.  The public tovalue({bits_format: f}) is exercised by the "p" rows.
+const prelude = `[ ("string","hex","base64","byte_array","md5","truncate","snippet") | {bits_format: ., sizebase: 10} ] as $fmts |`
 
 // outputs, in this order: one "v" row per path, one "f" row per fpath, one
 // "w" row if whole, one "p" row per pub entry
 const body = `
-. as $in | $in.root as $r
+. as $in | $in.root[0] as $r
 | ( $in.paths[] as $p
   | (try ($r | getpath($p)) catch null) as $v
   | [ "v", $v
@@ -230,10 +234,10 @@ const body = `
     , (try ($v | tobytesrange) catch {verif_err: tostring})
     ]
   )
-, ( $in.fpaths[] as [$p, $direct]
+, ( $in.fpaths[] as [$p, $direct, $fis]
   | (try ($r | getpath($p)) catch null) as $v
   | [ "f", $v
-    , [ $fmts[] as $o
+    , [ $fmts[$fis[]] as $o
       | [ (try ($v | tobits | _tovalue($o)) catch {verif_err: tostring})
         , (try ($v | tobytes | _tovalue($o)) catch {verif_err: tostring})
         , (if $direct then (try ($v | _tovalue($o)) catch {verif_err: tostring}) else null end)
@@ -263,16 +267,29 @@ var stream = &treeq.Stream{Prelude: prelude, Body: body, Restart: 1500}
 type budgetT struct {
 	all      bool // every value
 	maxNodes int
-	maxFmt   int
-	maxPub   int
+	maxFmt   int // values rendered
+	fmtsPer  int // bits_formats per rendered value (chosen by hash)
+	maxPub   int // values rendered through the public tovalue($opts)
+	pubEvery int // ... in one of pubEvery trees
 	wholeMax int // tovalue of the whole tree per format when the tree has at most this many values
 }
 
+func thorough() bool { return os.Getenv("VERIF_TIER") == "thorough" }
+
 func tierBudget() budgetT {
-	if os.Getenv("VERIF_TIER") == "thorough" {
-		return budgetT{all: true, maxNodes: 1 << 30, maxFmt: 120, maxPub: 4, wholeMax: 200000}
+	if thorough() {
+		return budgetT{all: true, maxNodes: 1 << 30, maxFmt: 120, fmtsPer: 7, maxPub: 4, pubEvery: 1, wholeMax: 200000}
 	}
-	return budgetT{maxNodes: 200, maxFmt: 24, maxPub: 2, wholeMax: 4000}
+	return budgetT{maxNodes: 200, maxFmt: 16, fmtsPer: 2, maxPub: 1, pubEvery: 1, wholeMax: 4000}
+}
+
+// smallTreeBudget: every value of a small generated tree, few renderings each
+// (one _tovalue call costs 0.3 ms, one public tovalue($opts) 1.7 ms).
+func smallTreeBudget() budgetT {
+	if thorough() {
+		return budgetT{all: true, maxFmt: 12, fmtsPer: 3, maxPub: 1, pubEvery: 2, wholeMax: 1 << 30}
+	}
+	return budgetT{all: true, maxFmt: 6, fmtsPer: 2, maxPub: 1, pubEvery: 4, wholeMax: 1 << 30}
 }
 
 // forceAll makes the checker look at every value regardless of the tier
@@ -478,11 +495,7 @@ var valueOps = []string{"tobits", "tobytes", "._bits", "._bytes", "tobits|tobyte
 // check converts the chosen values of the tree and compares.
 func (c *checker) check(b budgetT, seed uint64) {
 	tr, res := c.tr, c.res
-	rootV, err := treeq.RootValue(tr.Root.V)
-	if err != nil {
-		res.Failf("harness:root-not-compound", "%v", err)
-		return
-	}
+	rootV := treeq.RootHolder(tr.Root.V)
 	infos := classify(tr, seed)
 	sel := pick(infos, b)
 
@@ -537,12 +550,26 @@ func (c *checker) check(b budgetT, seed uint64) {
 		paths[k] = treeq.PathOf(infos[i].n)
 	}
 	fpaths := make([]any, len(fsel))
+	ffmts := make([][]int, len(fsel))
 	for k, i := range fsel {
-		fpaths[k] = []any{treeq.PathOf(infos[i].n), infos[i].raw}
+		per := min(max(b.fmtsPer, 1), len(formats))
+		first := int(mix(infos[i].key+seed) % uint64(len(formats)))
+		var fis []any
+		for j := 0; j < per; j++ {
+			// a stride of 3 walks through all seven formats
+			fi := (first + j*3) % len(formats)
+			ffmts[k] = append(ffmts[k], fi)
+			fis = append(fis, fi)
+		}
+		fpaths[k] = []any{treeq.PathOf(infos[i].n), infos[i].raw, fis}
 	}
 	var pub []any
 	var pubIdx []int
-	for k := 0; k < len(fsel) && len(pub) < b.maxPub; k++ {
+	npub := b.maxPub
+	if b.pubEvery > 1 && mix(seed^0x5bd1e995)%uint64(b.pubEvery) != 0 {
+		npub = 0
+	}
+	for k := 0; k < len(fsel) && len(pub) < npub; k++ {
 		i := fsel[(int(seed%997)+k*7)%len(fsel)]
 		f := formats[int(mix(seed+uint64(k))%uint64(len(formats)))]
 		pub = append(pub, []any{treeq.PathOf(infos[i].n), f})
@@ -645,7 +672,7 @@ func (c *checker) check(b budgetT, seed uint64) {
 	if nt {
 		res.NT = true
 	}
-	c.checkTail(tail, infos, fsel, whole, pub, pubIdx)
+	c.checkTail(tail, infos, fsel, ffmts, whole, pub, pubIdx)
 	for _, info := range infos {
 		if info.synthetic {
 			res.Stat("values_synthetic_not_asserted", 1)
@@ -654,7 +681,7 @@ func (c *checker) check(b budgetT, seed uint64) {
 }
 
 // checkTail handles the "f", "w" and "p" rows.
-func (c *checker) checkTail(tail []any, infos []nodeInfo, fsel []int, whole bool, pub []any, pubIdx []int) {
+func (c *checker) checkTail(tail []any, infos []nodeInfo, fsel []int, ffmts [][]int, whole bool, pub []any, pubIdx []int) {
 	res := c.res
 	pos := 0
 	next := func(tag string) []any {
@@ -668,7 +695,7 @@ func (c *checker) checkTail(tail []any, infos []nodeInfo, fsel []int, whole bool
 		pos++
 		return row
 	}
-	for _, i := range fsel {
+	for k, i := range fsel {
 		row := next("f")
 		if len(row) != 3 {
 			res.Failf("harness:jq-output-shape", "missing rendering row")
@@ -683,12 +710,14 @@ func (c *checker) checkTail(tail []any, infos []nodeInfo, fsel []int, whole bool
 			continue
 		}
 		per, _ := row[2].([]any)
-		if len(per) != len(formats) {
+		if len(per) != len(ffmts[k]) {
 			res.Failf("harness:jq-output-shape", "rendering row has %d formats", len(per))
 			return
 		}
-		for fi, f := range formats {
-			trio, _ := per[fi].([]any)
+		for pi, fi := range ffmts[k] {
+			f := formats[fi]
+			res.Stat("renderings_"+f, 2)
+			trio, _ := per[pi].([]any)
 			if len(trio) != 3 {
 				res.Failf("harness:jq-output-shape", "rendering row has the wrong shape")
 				return
@@ -791,9 +820,7 @@ func checkTree(tr *treegen.Tree, topData []byte, topBits int64, seed uint64, res
 	c := newChecker(tr, topData, topBits, res)
 	b := tierBudget()
 	if forceAll {
-		b.all = true
-		b.maxFmt = 60
-		b.wholeMax = 1 << 30
+		b = smallTreeBudget()
 	}
 	c.check(b, seed)
 	for _, n := range tr.All {
